@@ -137,6 +137,16 @@ def main(argv=None) -> int:
         print(f"INFRA: build failed: {e}")
         traceback.print_exc()
         return 2
+    # address-space limit for this process (set after the Lean build, whose tools map gigabytes of .olean files; inherited by
+    # the small driver executables): on a changed tree a query may try to materialise an
+    # astronomically large answer; a MemoryError inside the case is an observable, an OOM kill is not
+    try:
+        import resource
+        gb = float(os.environ.get("VERIF_MEM_LIMIT_GB", "12"))
+        if gb > 0:
+            resource.setrlimit(resource.RLIMIT_AS, (int(gb * 2 ** 30), int(gb * 2 ** 30)))
+    except Exception:  # noqa: BLE001
+        pass
     # functions of the anchored files whose normalised AST differs from the committed baseline:
     # not an alarm, only a reason to look harder (budget ×3 for this run)
     try:
